@@ -1524,6 +1524,28 @@ example :
     s.table = [7] ∧ s.pc 0 = .done 0 ∧ s.pc 1 = .done 0 := by
   decide
 
+/-- **T8 (a), the checker the driver runs on the real interner.** `consistent`
+decides "equal texts ↔ equal identifiers" on a list of observations; every list of
+observations the double-checked machine can hand out — any threads, any schedule —
+passes it; the unchecked witness does not. The harness feeds it what
+`verif_hooks::c12::intern` returned to N threads interning the same fresh texts at
+the same moment (`c12 intern …`). -/
+theorem interner_observations_consistent (key : Nat → Nat) (tbl : List Nat) (h0 : tbl.Nodup)
+    (sched ts : List Nat) :
+    Intern.consistent (Intern.observations key (Intern.run true key (Intern.init tbl) sched) ts) = true :=
+  good_consistent (run_good key sched _ (init_good key tbl h0)) ts
+
+theorem interner_checker_sound (obs : List (Nat × Nat)) :
+    Intern.consistent obs = true ↔ ∀ p ∈ obs, ∀ q ∈ obs, (p.1 = q.1 ↔ p.2 = q.2) :=
+  consistent_iff obs
+
+example :
+    Intern.consistent (Intern.observations (fun _ => 7)
+      (Intern.run false (fun _ => 7) (Intern.init []) [0, 1, 0, 1]) [0, 1]) = false
+    ∧ Intern.observations (fun t => t % 2)
+      (Intern.run true (fun t => t % 2) (Intern.init []) [0, 1, 2, 0, 1, 2]) [0, 1, 2] = [(0, 0), (1, 1), (0, 0)] := by
+  decide
+
 /-- both sections of a thread finish its operation, whatever ran in between -/
 theorem get_or_insert_two_sections_finish (r : Bool) (key : Nat → Nat) (s : Intern.St) (t : Nat) :
     (s.pc t = .start → (Intern.step r key s t).pc t = .missed ∨ ∃ i, (Intern.step r key s t).pc t = .done i)
